@@ -287,6 +287,17 @@ func c09Corpus(kind int) [][]byte {
 		// an aggregation packet whose units after the first total more than 65535 bytes
 		add(ref.H265AP([][]byte{ref.H265Unit(1, 0, 1, 10, 1), ref.H265Unit(1, 0, 1, 30000, 2), ref.H265Unit(1, 0, 1, 30000, 3), ref.H265Unit(1, 0, 1, 6000, 4)}, nil, nil))
 		add(ref.H265AP([][]byte{ref.H265Unit(1, 0, 1, 300, 1), ref.H265Unit(1, 0, 1, 256, 2)}, nil, nil))
+		for _, donl := range []bool{false, true} {
+			var dv *uint16
+			if donl {
+				v := uint16(0x0102)
+				dv = &v
+			}
+			ap := ref.H265AP([][]byte{ref.H265Unit(1, 0, 1, 2, 1), ref.H265Unit(1, 0, 1, 3, 2), ref.H265Unit(1, 0, 1, 2, 3)}, dv, []uint8{5, 6})
+			for cut := 3; cut < len(ap); cut++ { // every truncation
+				add(clone(ap[:cut]))
+			}
+		}
 		add(ref.H265PACI(1, 2, 3<<4|8, []byte{0x11, 0x22, 0xC3}, []byte{0x99, 0x98}))
 		add(ref.H265PACI(0, 1, 0, nil, []byte{0x77}))
 		add(ref.H265PACI(0, 1, 31<<4|0xF, fill(31, 3), []byte{0x77}))
